@@ -296,4 +296,9 @@ pub struct Plan {
     pub conns: usize,
     /// what the generator injected on purpose, for the oracles ("inject:<cause>")
     pub tags: Vec<String>,
+    /// enumerated completion order (C04X): handler gates (publish / protocol, numbered in the order in
+    /// which they are entered) are opened by the simulator in exactly this order; empty = seeded order
+    pub gate_order: Vec<u32>,
+    /// enumerated immediate / deferred mix (C04X): handler gate k completes without parking iff mask[k]
+    pub immediate_mask: Vec<bool>,
 }
